@@ -209,34 +209,37 @@ func checkC05(v *tunView, m *connModel) {
 			}
 		}
 	}
-	// what happened to the previous Send on the same connection (for the finding's signature)
-	prevOf := map[int]*SendCall{}
-	{
-		var prev *SendCall
-		ordered := append([]*SendCall(nil), r.h.Sends...)
-		for i := 0; i < len(ordered); i++ {
-			for j := i + 1; j < len(ordered); j++ {
-				if ordered[j].Done && ordered[i].Done && ordered[j].Ret.Seq < ordered[i].Ret.Seq {
-					ordered[i], ordered[j] = ordered[j], ordered[i]
+	// the (channel, sequence number) each Send's request carried
+	type chseq struct{ ch, seq uint8 }
+	reqOf := map[int]chseq{}
+	for _, x := range v.tx {
+		if x.F.OK && x.F.Svc == svcTunnelReq && !x.Werr {
+			if id := cemiID(x.F.CEMI); id >= 0 {
+				if _, ok := reqOf[id]; !ok {
+					reqOf[id] = chseq{x.F.Channel, x.F.Seq}
 				}
 			}
 		}
-		for _, s := range ordered {
-			if s.Done {
-				prevOf[s.ID] = prev
-				prev = s
-			}
+	}
+	failed := map[int]bool{}
+	for _, s := range r.h.Sends {
+		if s.Done && !s.OK {
+			failed[s.ID] = true
 		}
 	}
 	last := -1
 	for _, s := range oks {
 		if bus[s.ID] == 0 {
 			class := "send-ok-not-on-bus"
-			if p := prevOf[s.ID]; p != nil && !p.OK && bus[p.ID] > 0 {
-				// the documented history: the previous Send failed although its request had
-				// reached the gateway; this one re-used its number and was acknowledged as a
-				// repetition
-				class = "send-ok-not-on-bus:after-failed-send-that-reached-gateway"
+			if rq, ok := reqOf[s.ID]; ok {
+				for _, b := range g.Bus {
+					if b.Channel == rq.ch && b.Seq == rq.seq && failed[b.ID] && b.At.Seq < s.Ret.Seq {
+						// the documented history: an earlier Send failed (timed out) although its
+						// request had reached the gateway; this Send re-used its sequence number
+						// and was acknowledged as a repetition without reaching the bus
+						class = "send-ok-not-on-bus:reused-number-of-failed-send-that-reached-gateway"
+					}
+				}
 			}
 			e.Violate("C05", class, "Send id=%d reported success at %v but the gateway never put the telegram on the bus", s.ID, s.Ret.T)
 			continue
